@@ -328,8 +328,55 @@ func ropeEq(x, y value) value {
 			return false
 		}
 	}
+	// character sets: a decimal rendering consists of digits and '-', an
+	// identifier-coded atom of identifier characters; if every part of one side
+	// has such a known character set and the other side contains a literal
+	// character outside their union, the strings differ
+	if charsetExcludes(a, b) || charsetExcludes(b, a) {
+		return false
+	}
 	ta, tb := StrTerm(mkRope(a)), StrTerm(mkRope(b))
 	return SymBool{T: fmt.Sprintf("(= %s %s)", ta, tb)}
+}
+
+// charsetExcludes reports whether all parts of a have a known character set
+// and b contains a literal byte outside the union of those sets.
+func charsetExcludes(a, b []Part) bool {
+	var allowed [256]bool
+	for _, p := range a {
+		switch p.Kind {
+		case PLit:
+			for i := 0; i < len(p.Lit); i++ {
+				allowed[p.Lit[i]] = true
+			}
+		case PInt:
+			for c := byte('0'); c <= '9'; c++ {
+				allowed[c] = true
+			}
+			allowed['-'] = true
+		case PCode:
+			if strings.HasPrefix(p.Lit, "cT_") {
+				return false
+			}
+			for c := 0; c < 256; c++ {
+				if c == '_' || c >= '0' && c <= '9' || c >= 'A' && c <= 'Z' || c >= 'a' && c <= 'z' {
+					allowed[c] = true
+				}
+			}
+		default:
+			return false
+		}
+	}
+	for _, p := range b {
+		if p.Kind == PLit {
+			for i := 0; i < len(p.Lit); i++ {
+				if !allowed[p.Lit[i]] {
+					return true
+				}
+			}
+		}
+	}
+	return false
 }
 
 // ---- boolean / integer term helpers
